@@ -37,8 +37,12 @@ def main():
     checks = sys.argv[3:] or [pid]
     name = os.path.basename(wt.rstrip("/")).replace("wt-", "")
     bn = os.path.basename(sys.argv[2].rstrip("/"))
-    sid = bn.split("wt-")[-1] if bn.startswith("wt-") else (bn.split("wt2-")[-1] + "b" if bn.startswith("wt2-") else
-                                                                  (bn.split("wt3-")[-1] + "c" if bn.startswith("wt3-") else (bn.split("wt4-")[-1] + "d" if bn.startswith("wt4-") else bn)))
+    import re
+    mm = re.match(r"wt(\d*)-(C\d+)$", bn)
+    if mm:
+        sid = mm.group(2) + {"": "", "2": "b", "3": "c", "4": "d", "5": "e", "6": "f", "7": "g"}[mm.group(1)]
+    else:
+        sid = bn
     patch = os.path.join(wt, "seed.patch")
     if not os.path.isfile(patch) or os.path.getsize(patch) == 0:
         print("no seed.patch in", wt)
